@@ -162,6 +162,7 @@ type ivAnalyzer struct {
 	summar map[string]bool // names of summarised digit writers
 	failed string
 	nsym   int
+	curFn  *ssa.Function
 }
 
 // sliceLen evaluates the length interval of a slice-typed value.
@@ -243,6 +244,22 @@ func (a *ivAnalyzer) eval(v ssa.Value, e env) (ival, bool) {
 				return in, true
 			}
 			in = in.conc()
+		}
+		// a conversion to a NARROWER integer type must not lose bits of the value being formatted
+		if ws, wt := intBits(x.X.Type()), intBits(x.Type()); ws > 0 && wt > 0 && wt < ws && a.curFn != nil {
+			tr := typeRange(x.Type())
+			if wt == 32 {
+				if isUnsigned(x.Type()) {
+					tr = ivb(big.NewInt(0), big.NewInt(1<<32-1))
+				} else {
+					tr = iv(-1<<31, 1<<31-1)
+				}
+			}
+			c := in.conc()
+			fits := c.lo.Cmp(tr.lo) >= 0 && c.hi.Cmp(tr.hi) <= 0
+			if wt == 32 || wt == 8 {
+				a.oblige(a.curFn, x.Pos(), "narrowing", fits, "value %s converted to %s", c, x.Type())
+			}
 		}
 		from, to := isUnsigned(x.X.Type()), isUnsigned(x.Type())
 		if !from && to {
@@ -449,7 +466,9 @@ func (a *ivAnalyzer) analyze(fn *ssa.Function, params []ival) ([]ival, bool) {
 		}
 	}
 	a.depth++
-	defer func() { a.depth-- }()
+	saved := a.curFn
+	a.curFn = fn
+	defer func() { a.depth--; a.curFn = saved }()
 	base := env{}
 	for i, q := range fn.Params {
 		if i < len(params) && params[i].lo != nil {
@@ -748,4 +767,21 @@ func filterObls(in []ivObligation, fn *ssa.Function) []ivObligation {
 		}
 	}
 	return out
+}
+
+// intBits: bit width of an integer type (0 if not an integer type; int/uint/uintptr count as 64).
+func intBits(t types.Type) int {
+	b, ok := t.Underlying().(*types.Basic)
+	if !ok || b.Info()&types.IsInteger == 0 {
+		return 0
+	}
+	switch b.Kind() {
+	case types.Int8, types.Uint8:
+		return 8
+	case types.Int16, types.Uint16:
+		return 16
+	case types.Int32, types.Uint32:
+		return 32
+	}
+	return 64
 }
